@@ -153,10 +153,18 @@ def normalize_hostname(hostname, normalize_amp=True):
 
     pattern = IRRELEVANT_SUBDOMAIN_AMP_RE if normalize_amp else IRRELEVANT_SUBDOMAIN_RE
 
-    hostname = pattern.sub("", hostname)
+    # NOTE: until nothing changes, since "amp-www.lemonde.fr" hides a "www."
+    # and "www.amp-lemonde.fr" hides an "amp-"
+    while hostname:
+        previous_hostname = hostname
 
-    if normalize_amp and hostname.startswith("amp-"):
-        hostname = hostname[4:]
+        if normalize_amp and hostname.startswith("amp-"):
+            hostname = hostname[4:]
+
+        hostname = pattern.sub("", hostname)
+
+        if hostname == previous_hostname:
+            break
 
     hostname = decode_punycode_hostname(hostname)
 
@@ -399,13 +407,26 @@ def normalize_url(
     if path == "/" and not fragment and not query:
         path = ""
 
-    # Dropping irrelevant subdomains
-    if hostname and strip_irrelevant_subdomains:
-        hostname = re.sub(
-            IRRELEVANT_SUBDOMAIN_AMP_RE if normalize_amp else IRRELEVANT_SUBDOMAIN_RE,
-            "",
-            hostname,
-        )
+    # Normalizing AMP subdomains & dropping irrelevant subdomains
+    # NOTE: until nothing changes, since "amp-www.lemonde.fr" hides a "www."
+    # and "www.amp-lemonde.fr" hides an "amp-"
+    while hostname:
+        previous_hostname = hostname
+
+        if normalize_amp and hostname.startswith("amp-"):
+            hostname = hostname[4:]
+
+        if strip_irrelevant_subdomains:
+            hostname = re.sub(
+                IRRELEVANT_SUBDOMAIN_AMP_RE
+                if normalize_amp
+                else IRRELEVANT_SUBDOMAIN_RE,
+                "",
+                hostname,
+            )
+
+        if hostname == previous_hostname:
+            break
 
     # Dropping scheme
     if strip_protocol or not has_protocol:
@@ -415,10 +436,6 @@ def normalize_url(
     if strip_authentication:
         user = None
         password = None
-
-    # Normalizing AMP subdomains
-    if normalize_amp and hostname and hostname.startswith("amp-"):
-        hostname = hostname[4:]
 
     # Handling punycode
     # NOTE: must be done once "amp-" was dropped, since "amp-xn--" is no punycode
